@@ -11,41 +11,58 @@ CONFIG = {
     "level_text": "Proof (unbounded: all finite generalized datasets, all hash functions, all sorts meeting the std contract, every fuel) "
                   "for the Lean transcription of isomorphic_datasets/isomorphic_graphs: the answer is symmetric in its arguments; it is "
                   "false whenever the two differ in size, in number of distinct blank nodes, or in the multiset of statements with blank "
-                  "nodes blanked out; and on a copy whose blank nodes are renamed by an injective map and whose statements are reordered "
-                  "all three gates pass and colour refinement never answers false (colours correspond at every round) - this last "
-                  "clause fully for the IsoTerm variant that recurses into quoted triples (iso_relabel, deep=true) and, for the variant "
-                  "/repo has now (deep=false), under the hypothesis that the renaming fixes blank nodes inside quoted triples "
-                  "(iso_relabel_partial) together with a kernel-checked refutation of the unrestricted statement "
-                  "(iso_relabel_witness, iso_relabel_fails_shallow). Partial correctness: termination of the refinement loop is not claimed. "
-                  "Tie to /repo: which IsoTerm variant the source has is regenerated on every run (fail-closed extractor); the rest is "
-                  "differential (real isomorphic_datasets/isomorphic_graphs, both argument orders, Vec/HashSet/BTreeSet/Fast/Light "
-                  "containers) - exact on every case whose answer the theorems determine (a gate fails, or certified relabelling).",
+                  "nodes blanked out; and on a copy whose blank nodes are renamed by an injective map (anywhere, incl. inside quoted "
+                  "triples and graph names) and whose statements are reordered all three gates pass and colour refinement never answers "
+                  "false (colours correspond at every round), every answer it gives is true, and an answer does not change with more fuel "
+                  "- for the IsoTerm variant /repo has (repo_variant: the regenerated flag is the recursive variant; iso_relabel_repo). "
+                  "certOk_sound / groundDiffers_sound state the same for exactly the two tests from which the differential oracle is "
+                  "derived. Partial correctness: termination of the refinement loop is not claimed (with XOR-combined colours and an "
+                  "arbitrary hash the class count is not monotone). "
+                  "Tie to /repo: the IsoTerm variant is regenerated on every run (fail-closed extractor); the rest is differential "
+                  "(real isomorphic_datasets/isomorphic_graphs, both argument orders, 9 dataset and 9 graph containers incl. ArcTerm/"
+                  "RcTerm terms, slices, Gspo tuples, a store after removals, union/single-graph views of a dataset): exact on every case "
+                  "whose answer the theorems determine (a gate fails, or certified relabelling), and model-vs-implementation on the "
+                  "answer of colour refinement itself for gate-passing pairs without certificate.",
     "level_note": "Trusted: std sort_unstable only through 'permutation, sorted if the comparator is a total preorder' (SortSpec; the "
                   "driver's insertion sort is proved to meet it); DefaultHasher as an arbitrary function of the fed event trace; HashMap/"
                   "BTreeSet as association lists; Term::eq/cmp transcription of C02 (WF guard: untagged literals never rdf:langString). "
-                  "Where gates pass and no certificate exists the implementation's answer is hash-dependent: the model's answer there is "
-                  "advisory and not compared. Known finding: blank node renamed inside a quoted triple => false negative "
-                  "(fix: notes/fixes/C07-nested-bnodes.diff). No native_decide.",
+                  "Where gates pass and no certificate exists the property fixes no answer; the implementation's answer is then a "
+                  "function of the structure alone unless two different event traces collide in 64 bits (SipHash there, a mixing hash in "
+                  "the driver), so it is compared as a model field: a difference is reported as a model/implementation disagreement "
+                  "(no failing input), never as a property violation. 'Held in a different container' is differential only; a Vec "
+                  "holding one statement twice is a different dataset for isomorphic_datasets (size) and is excluded "
+                  "(skip=container_content_differs). Error paths of fallible datasets are not exercised. A request whose two calls do "
+                  "not return within 60 s (normal: < 10 ms) is reported as FAIL.no_termination for that request. "
+                  "Former finding (fixed 0aad566): blank node renamed inside a quoted triple => false negative; its refutation "
+                  "(iso_relabel_witness, iso_relabel_fails_shallow) is kept in Props/C07.lean but no longer counted. No native_decide.",
     "tables": ["iso_variant"],
     "lean_targets": ["SophiaProofs.Props.C07", "SophiaProofs.Audit.C07"],
-    "theorems": ["iso_symm", "iso_false_size", "iso_false_bcount", "iso_false_ground", "iso_relabel", "iso_relabel_partial",
-                 "iso_relabel_witness", "iso_relabel_fails_shallow", "isort_spec", "bcount_gate_subsumed", "colour_covered"],
+    "theorems": ["iso_symm", "iso_false_size", "iso_false_bcount", "iso_false_ground", "iso_relabel", "repo_variant",
+                 "iso_relabel_repo", "iso_relabel_answers_true", "certOk_sound", "groundDiffers_sound", "iso_fuel_mono",
+                 "iso_relabel_partial", "isort_spec", "bcount_gate_subsumed", "colour_covered"],
     "native_ok": [],
     "trivial_re": r"^n1=0 n2=0 |^skip",
-    "rule": "10 hand-made shapes (symmetric/indistinguishable blank nodes, one label in several positions, blank nodes in quoted "
-            "triples at depth 1-2 and as graph names) and random strict/generalized datasets of 0-8 (thorough 0-11) statements over "
-            "<=5 labels; per dataset: relabelled+shuffled copy with the renaming fixing / not fixing nested blank nodes (permutation "
-            "of the labels among themselves, fresh labels, or mixed), then one-edit variants of the copy: one ground term changed, one "
-            "statement added / removed, two blank nodes merged, one occurrence split off or rewired; plus unrelated pairs and two "
-            "same-gates-different-wiring pairs; each pair in a random pair of container types (graphs when no statement is named); "
-            "non-trivial = at least one statement; distinct = distinct request lines",
+    "rule": "10 hand-made small shapes, 8 hand-made gate-passing but differently wired pairs (2 regular, 6 separable), 11 families "
+            "of larger shapes (chains, cycles, two cycles, stars with identical / marked / quoted leaves, chains through quoted "
+            "triples at depth 1-2, one blank graph name shared by 40-120 statements, a component in two copies, sparse random, "
+            "binary tree) with 6-40 (thorough 6-64) blank nodes, half of them with one anchored node, every 32nd (thorough 16th) "
+            "filled to >= 300 statements; and random strict/generalized datasets of 0-8 (thorough 0-11) statements over <=5 labels. "
+            "Per dataset: relabelled+shuffled copy with the renaming fixing / not fixing nested blank nodes (permutation of the "
+            "labels, all fresh labels, lexical order inverted, or mixed), then one-edit variants of the copy: one ground term "
+            "changed, one statement added / removed, two blank nodes merged, one occurrence split off or rewired, the blank "
+            "objects of two statements exchanged; plus unrelated pairs; each pair in a random pair of the 9 dataset (or, when no "
+            "statement is named, 9 graph) containers; non-trivial = at least one statement; distinct = distinct request lines. "
+            "Counters: pair.answer.* (which clause fixes the answer), pair.statements/labels.*, big.*, container.*",
     "trusted_base": ["isomorphism crate transcription lean/SophiaModel/Model/Iso.lean",
+                     "oracle tests lean/SophiaModel/Model/IsoOracle.lean and their Rust twins cert_ok / ground_differs (compared on every case)",
                      "std sort_unstable / DefaultHasher / HashMap / BTreeSet contracts as stated in level_note",
                      "tools/extractors/c07.py (shape match of IsoTerm::eq/partial_cmp/cmp, fail-closed)"],
     "assumptions": ["SortSpec: sort_unstable returns a permutation, sorted w.r.t. Ord if Ord is a total preorder on the input",
                     "DefaultHasher::finish is a function of the sequence of values fed to it",
                     "terms are well-formed (an untagged literal never has datatype rdf:langString)"],
     "search_rounds": 2,
+    # the harness caps each request at 60 s itself (2 hung requests at most, then skips); this is the outer bound
+    "exec_timeout": 1500,
 }
 
 
